@@ -28,6 +28,7 @@ import (
 	"google.golang.org/grpc/codes"
 	"google.golang.org/grpc/status"
 	"google.golang.org/protobuf/proto"
+	"google.golang.org/protobuf/types/known/anypb"
 	"google.golang.org/protobuf/types/known/durationpb"
 	"google.golang.org/protobuf/types/known/emptypb"
 )
@@ -39,7 +40,8 @@ type clientSpec struct {
 	Name  string
 	Stage int
 	// Calls: "exec <action> <toolInvocation> [<correlated> [<priority>]]",
-	// "wait <stream id>", "sleep <ticks>".
+	// "wait <stream id>", "waitbg" (WaitExecution on the background learning
+	// operation that ListOperations shows), "sleep <ticks>".
 	Calls []string
 	// Number of cancellation events the environment may deliver to
 	// this client (each cancels the call that is in progress).
@@ -69,7 +71,9 @@ type operatorSpec struct {
 	Name  string
 	Stage int
 	// Calls: "kill <stream id>", "killq <size class>", "drain+ <worker>",
-	// "drain- <worker>", "term <worker>", "list", "sleep <ticks>".
+	// "drain- <worker>", "term <worker>", "list", "browse" (every read-only
+	// BuildQueueState RPC on every queue / invocation / operation, see
+	// browse()), "sleep <ticks>".
 	Calls   []string
 	Cancels int
 }
@@ -88,6 +92,14 @@ type config struct {
 	// Timeouts in ticks.
 	Update, NoWaiter, WorkerTimeout, QueueTimeout, Busy, IdleSync int
 	RetryCount                                                    int
+	// WorkerTaskRetryCount = 0 (RetryCount 0 means "default", i.e. 1).
+	RetryZero bool
+	// Instance name the clients use in their ExecuteRequests (default
+	// "main"). The platform queue and the workers are always registered under
+	// the instance name prefix "main"; with e.g. "main/x" the queue is found by
+	// longest-prefix match and its prefix is a STRICT prefix of the clients'
+	// instance name.
+	ClientInstance string
 	// The environment offers "tick" up to this clock value during
 	// the run proper; teardown continues until everything timed out.
 	MaxTicks int
@@ -128,8 +140,13 @@ func (c *config) defaults() {
 	if c.IdleSync == 0 {
 		c.IdleSync = 4
 	}
-	if c.RetryCount == 0 {
+	if c.RetryZero {
+		c.RetryCount = 0
+	} else if c.RetryCount == 0 {
 		c.RetryCount = 1
+	}
+	if c.ClientInstance == "" {
+		c.ClientInstance = instanceName
 	}
 	if c.MaxTicks == 0 {
 		c.MaxTicks = 4
@@ -146,6 +163,7 @@ type actor struct {
 	idx  int
 
 	started, done bool
+	thread        *mc.Thread
 	// current call
 	inCall      bool
 	ctx         *fakeCtx
@@ -249,6 +267,7 @@ func newWorld(x *mc.X, cfg *config) *world {
 	for _, s := range []actionSpec{
 		{name: "A", platform: "linux"},
 		{name: "B", platform: "linux"},
+		{name: "C", platform: "linux"},
 		{name: "N", platform: "linux", doNotCache: true},
 		{name: "X", platform: "plan9"},
 	} {
@@ -314,7 +333,7 @@ func (w *world) spawnStage(stage int) {
 			continue
 		}
 		a := a
-		w.x.Go(a.name, func() {
+		a.thread = w.x.Go(a.name, func() {
 			w.mu.Lock()
 			a.started = true
 			w.mu.Unlock()
@@ -418,17 +437,22 @@ func (a *actor) runClient() {
 			s.ctx = a.beginCall(requestMetadataContext(tool, corr))
 			w.mon.onStreamStart(s)
 			err := w.bq.Execute(&remoteexecution.ExecuteRequest{
-				InstanceName:    instanceName,
+				InstanceName:    w.cfg.ClientInstance,
 				ActionDigest:    ai.digest,
 				ExecutionPolicy: &remoteexecution.ExecutionPolicy{Priority: int32(prio)},
 			}, s)
 			w.x.CheckNoLocksHeld("Execute")
 			a.endCall()
 			w.mon.onStreamEnd(s, err)
-		case "wait":
-			target := w.findStreamLocked(f[1])
+		case "wait", "waitbg":
 			name := "00000000-0000-0000-0000-0000000000ff"
-			if target != "" {
+			if f[0] == "waitbg" {
+				// Attach to the background learning operation, whose name the
+				// client learns the way an operator would: from ListOperations.
+				if bg := w.findBackgroundOperation(); bg != "" {
+					name = bg
+				}
+			} else if target := w.findStreamLocked(f[1]); target != "" {
 				name = target
 			}
 			s := &stream{w: w, a: a, id: fmt.Sprintf("%s.%d", a.name, ci), kind: "wait", waitFor: name}
@@ -442,6 +466,25 @@ func (a *actor) runClient() {
 			panic("bad client call " + call)
 		}
 	}
+}
+
+// findBackgroundOperation returns the name of the first operation that
+// ListOperations reports as belonging to the BackgroundLearning invocation
+// ("" if there is none).
+func (w *world) findBackgroundOperation() string {
+	resp, err := w.bq.ListOperations(context.Background(), &buildqueuestate.ListOperationsRequest{PageSize: 100})
+	w.x.CheckNoLocksHeld("ListOperations")
+	if err != nil {
+		return ""
+	}
+	for _, o := range resp.Operations {
+		for _, id := range o.GetInvocationName().GetIds() {
+			if strings.HasSuffix(id.GetTypeUrl(), ".BackgroundLearning") {
+				return o.Name
+			}
+		}
+	}
+	return ""
 }
 
 func (w *world) findStreamLocked(id string) string {
@@ -794,6 +837,8 @@ func (a *actor) runOperator() {
 					_, _ = w.bq.ListQueuedOperations(ctx, &buildqueuestate.ListQueuedOperationsRequest{InvocationName: &buildqueuestate.InvocationName{SizeClassQueueName: w.sizeClassQueueName(sc)}, PageSize: 100})
 				}
 			}
+		case "browse":
+			err = a.browse(ctx)
 		default:
 			panic("bad operator call " + call)
 		}
@@ -805,6 +850,95 @@ func (a *actor) runOperator() {
 		w.mu.Unlock()
 		w.mon.onOperatorCallEnd(a, oc)
 	}
+}
+
+// browse issues every read-only BuildQueueState RPC the way the scheduler's
+// web UI does when somebody clicks through all of its pages: the platform
+// queues, per size class queue its workers (all / executing / idle
+// synchronizing per invocation), drains, and the whole invocation tree
+// (children with every filter, queued operations of every invocation), then
+// all operations, each of them once more by name. Everything the walk
+// visits comes out of the previous responses, which the scheduler sorts, so
+// the walk is deterministic. None of these calls may change what the
+// scheduler does next: the structural monitors (C01) run at the scheduling
+// point of every following call.
+func (a *actor) browse(ctx context.Context) error {
+	bq := a.w.bq
+	x := a.w.x
+	pqs, err := bq.ListPlatformQueues(ctx, &emptypb.Empty{})
+	x.CheckNoLocksHeld("ListPlatformQueues")
+	if err != nil {
+		return err
+	}
+	filters := []buildqueuestate.ListInvocationChildrenRequest_Filter{
+		buildqueuestate.ListInvocationChildrenRequest_QUEUED,
+		buildqueuestate.ListInvocationChildrenRequest_ACTIVE,
+		buildqueuestate.ListInvocationChildrenRequest_ALL,
+	}
+	var walk func(name *buildqueuestate.InvocationName, depth int) error
+	walk = func(name *buildqueuestate.InvocationName, depth int) error {
+		if _, err := bq.ListQueuedOperations(ctx, &buildqueuestate.ListQueuedOperationsRequest{InvocationName: name, PageSize: 100}); err != nil {
+			return err
+		}
+		x.CheckNoLocksHeld("ListQueuedOperations")
+		for _, wf := range []*buildqueuestate.ListWorkersRequest_Filter{
+			{Type: &buildqueuestate.ListWorkersRequest_Filter_Executing{Executing: name}},
+			{Type: &buildqueuestate.ListWorkersRequest_Filter_IdleSynchronizing{IdleSynchronizing: name}},
+		} {
+			if _, err := bq.ListWorkers(ctx, &buildqueuestate.ListWorkersRequest{Filter: wf, PageSize: 100}); err != nil {
+				return err
+			}
+			x.CheckNoLocksHeld("ListWorkers")
+		}
+		var all *buildqueuestate.ListInvocationChildrenResponse
+		for _, f := range filters {
+			resp, err := bq.ListInvocationChildren(ctx, &buildqueuestate.ListInvocationChildrenRequest{InvocationName: name, Filter: f})
+			x.CheckNoLocksHeld("ListInvocationChildren")
+			if err != nil {
+				return err
+			}
+			all = resp
+		}
+		if depth >= 3 {
+			return nil
+		}
+		for _, c := range all.Children {
+			child := &buildqueuestate.InvocationName{SizeClassQueueName: name.SizeClassQueueName, Ids: append(append([]*anypb.Any(nil), name.Ids...), c.Id)}
+			// An invocation may have been removed since it was listed.
+			if err := walk(child, depth+1); err != nil && status.Code(err) != codes.NotFound {
+				return err
+			}
+		}
+		return nil
+	}
+	for _, pq := range pqs.PlatformQueues {
+		for _, scq := range pq.SizeClassQueues {
+			scqName := &buildqueuestate.SizeClassQueueName{PlatformQueueName: pq.Name, SizeClass: scq.SizeClass}
+			if _, err := bq.ListWorkers(ctx, &buildqueuestate.ListWorkersRequest{PageSize: 100, Filter: &buildqueuestate.ListWorkersRequest_Filter{Type: &buildqueuestate.ListWorkersRequest_Filter_All{All: scqName}}}); err != nil && status.Code(err) != codes.NotFound {
+				return err
+			}
+			x.CheckNoLocksHeld("ListWorkers")
+			if _, err := bq.ListDrains(ctx, &buildqueuestate.ListDrainsRequest{SizeClassQueueName: scqName}); err != nil && status.Code(err) != codes.NotFound {
+				return err
+			}
+			x.CheckNoLocksHeld("ListDrains")
+			if err := walk(&buildqueuestate.InvocationName{SizeClassQueueName: scqName}, 0); err != nil && status.Code(err) != codes.NotFound {
+				return err
+			}
+		}
+	}
+	ops, err := bq.ListOperations(ctx, &buildqueuestate.ListOperationsRequest{PageSize: 100})
+	x.CheckNoLocksHeld("ListOperations")
+	if err != nil {
+		return err
+	}
+	for _, o := range ops.Operations {
+		if _, err := bq.GetOperation(ctx, &buildqueuestate.GetOperationRequest{OperationName: o.Name}); err != nil && status.Code(err) != codes.NotFound {
+			return err
+		}
+		x.CheckNoLocksHeld("GetOperation")
+	}
+	return nil
 }
 
 // ---------------------------------------------------------------------------
@@ -939,7 +1073,17 @@ func (w *world) addEvents() {
 		a := a
 		x.AddEvent(&mc.Event{
 			Name: "td-cancel:" + a.name, Teardown: true,
-			Enabled: locked(func() bool { return a.inCall && !a.done && a.ctx != nil && !a.ctx.cancelled() && a.doneCalls > 0 }),
+			// Teardown only cancels calls that wait for something WITHOUT
+			// holding a scheduler lock. A call that sleeps in a select while
+			// it still holds bq.lock blocks every other call for as long as its
+			// caller stays connected; whatever it waits for can only be produced
+			// by a call that needs that lock. Rescuing it by cancelling its
+			// context would hide that: the run then ends as a deadlock (C14 "any
+			// set of calls issued concurrently ... all terminate", C06 "every
+			// blocked call returns once its wake-up condition ... occurs").
+			Enabled: locked(func() bool {
+				return a.inCall && !a.done && a.ctx != nil && !a.ctx.cancelled() && a.doneCalls > 0 && (a.thread == nil || len(w.x.HeldBy(a.thread)) == 0)
+			}),
 			Fire: func() {
 				w.mon.onForcedCancel(a)
 				w.mu.Lock()
